@@ -14,7 +14,11 @@ RULE = ("random trees with many ties (few distinct sizes/mtimes, equal names in 
 
 KEYS = [("name", "s"), ("ext", "s"), ("path", "s"), ("size", "n"), ("hardlinks", "n"), ("uid", "n"),
         ("modified", "d"), ("length(name)", "n"), ("mode", "s"), ("is_dir", "s"), ("size + 1", "n"),
-        ("size - 100", "n"), ("hardlinks - 3", "n"), ("size * 2 - 150", "n"), ("length(name) - 20", "n")]
+        ("size - 100", "n"), ("hardlinks - 3", "n"), ("size * 2 - 150", "n"), ("length(name) - 20", "n"),
+        ("dow(modified)", "n"), ("day(modified)", "n"), ("month(modified)", "n"),
+        # the literal first: such a key can only be named by position (`order by 100 - size` reads `100` as a position)
+        ("100 - size", "n"), ("2 * size", "n"), ("1000 - length(name) * 7", "n")]
+POS_ONLY = {"100 - size", "2 * size", "1000 - length(name) * 7"}
 
 
 def tie_tree(r):
@@ -75,7 +79,7 @@ def run(ctx):
                 keys = r.sample(KEYS, nk)
                 dirs = [r.chance(2, 3) for _ in keys]
                 where = r.choice(["", "", " where size >= 0", " where is_file = true", " where name != 'zz'"])
-                positional = r.chance(1, 4)
+                positional = r.chance(1, 4) or any(k in POS_ONLY for k, _ in keys)
                 sel = ["path"] + [k for k, _ in keys]
                 order = []
                 for i, (k, _) in enumerate(keys):
@@ -85,7 +89,7 @@ def run(ctx):
                 # the repeat can never change the order
                 if r.chance(1, 4):
                     j = r.below(len(keys))
-                    spell = str(j + 2) if r.chance(1, 2) else keys[j][0]
+                    spell = str(j + 2) if (r.chance(1, 2) or keys[j][0] in POS_ONLY) else keys[j][0]
                     order.insert(r.range(j + 1, len(order)), spell + r.choice(["", " asc", " desc", " desc"]))
                     ctx.count("repeated_key")
                 q_un = "select %s from .%s into list" % (", ".join(sel), where)
